@@ -335,6 +335,33 @@ def run(db, chk):
                     det = "" if ok else ("threw %s" % exc if arr is None else "override lost")
                 chk.ob("C17-N3", "[%s] raster: %s" % (uname, label), ok, where=fn.ploc,
                        function=fn.bn, construct="override(%s)" % label.split(" (")[0], detail=det)
+            # systematic: every admissible border combination x every node class x every override
+            # status: rejected exactly when the override is `looped` or the COMPOSED status of the
+            # node is looped (a corner where a looped axis meets a higher-precedence border is not)
+            nbad3 = 0
+            for b in combos:
+                if (is_looped(b[0]) != is_looped(b[1])) or (is_looped(b[2]) != is_looped(b[3])):
+                    continue
+                for cell in cells(2):
+                    for st_new in S:
+                        n_sc += 1
+                        want_throw = st_new == 3 or expected_status(2, b, cell) == 3
+                        arr, exc = run_set_status(fn, 2, b, {cell: st_new})
+                        if want_throw:
+                            ok = arr is None
+                            det = "" if ok else "accepted although %s" % (
+                                "the override is looped" if st_new == 3 else "the node is a looped boundary node")
+                        else:
+                            ok = arr is not None and arr != "oob" and arr.value_at(cell) == st_new
+                            det = "" if ok else ("rejected (%s) although the composed status of the node is %s"
+                                                 % (exc, SNAME[expected_status(2, b, cell)]) if arr is None
+                                                 else "override lost")
+                        if not ok:
+                            nbad3 += 1
+                        if ok or nbad3 <= 6:
+                            chk.ob("C17-N3", "[%s] raster borders %s, node %s := %s" % (
+                                uname, "/".join(SNAME[x] for x in b), cell, SNAME[st_new]), ok, where=fn.ploc,
+                                function=fn.bn, construct="override-grid", detail=det, sample=(n_sc % 211 == 1))
         first = False
 
     # ------------------------------------------------------------------ N1 / N3 profile
